@@ -14,7 +14,11 @@ import (
 
 func init() {
 	register("C18", false, func(p *core.Prog, r *core.Report, tier string) { tables.C18(p, r) })
-	register("C01", false, func(p *core.Prog, r *core.Report, tier string) { tables.C01(p, r) })
+	register("C01", false, func(p *core.Prog, r *core.Report, tier string) {
+		tables.C01(p, r)
+		tables.PadAgree(p, r)
+		tables.TrimOne(p, r)
+	})
 	register("C16", false, func(p *core.Prog, r *core.Report, tier string) { tables.C16(p, r) })
 	register("C02", true, func(p *core.Prog, r *core.Report, tier string) {
 		effects.PureOps(9, "Insert", "Embed", "(FeatureSlice).Insert", "*.Shift", "*.Expand")(p, r)
@@ -27,6 +31,10 @@ func init() {
 		effects.PureOps(11, "Delete", "Erase", "Slice", "(FeatureSlice).Filter", "(GenBankFields).Slice", "*.Shift", "*.Expand")(p, r)
 		conserve.C03(p, r)
 		conserve.Window(p, r)
+		conserve.EraseOrder(p, r)
+		conserve.NegIndex(p, r)
+		r.Rule("RANGE-ELEM", "inside a loop over a collection A the loop's index is used to index A itself or a collection allocated with len(A), never another collection (gts.Slice, gts.Delete, seqio.GenBankFields.Slice)", 6)
+		conserve.RangeElem(p, r, [][2]string{{core.PkgGts, "Slice"}, {core.PkgGts, "Delete"}, {core.PkgSeqio, "GenBankFields.Slice"}})
 		orders.Intervals(p, r)
 		siblings.Expand(p, r)
 	})
@@ -54,6 +62,7 @@ func init() {
 	register("C05", true, func(p *core.Prog, r *core.Report, tier string) {
 		effects.PureOps(10, "Reverse", "Complement", "Transcribe", "*.Reverse", "*.Complement")(p, r)
 		conserve.C05(p, r)
+		conserve.LocateRC(p, r)
 		siblings.Reverse(p, r)
 		tables.Alphabet(p, r)
 	})
